@@ -29,6 +29,9 @@ type C03Case struct {
 	ExcIndex  int     `json:"exc_index"`
 	Ret       *Node   `json:"ret,omitempty"`
 	Exc       *Node   `json:"exc,omitempty"`
+	// Extra argument tuples: the same method is invoked concurrently on the same
+	// client and processor, once per tuple (only with outcome "return")
+	Extra [][]*Node `json:"extra,omitempty"`
 }
 
 var c03Transports = []string{"loop", "loop", "loop", "tcp", "http", "nats"}
@@ -82,6 +85,15 @@ func GenC03(t *rapid.T) C03Case {
 	if c.Outcome == "return" && m.Ret != nil {
 		c.Ret = GenTree(t, p, m.Ret, 1)
 	}
+	if c.Outcome == "return" && !m.Oneway && len(m.Args) > 0 && rapid.IntRange(0, 3).Draw(t, "concurrent?") == 0 {
+		for i, n := 0, rapid.IntRange(1, 7).Draw(t, "nextra"); i < n; i++ {
+			var tuple []*Node
+			for _, a := range m.Args {
+				tuple = append(tuple, GenTree(t, p, a.Type, 1))
+			}
+			c.Extra = append(c.Extra, tuple)
+		}
+	}
 	return c
 }
 
@@ -103,6 +115,10 @@ func ClassifyC03(c C03Case) ev.Class {
 	}
 	if len(m.Throws) > 0 {
 		labels = append(labels, "has-throws")
+		nt = true
+	}
+	if len(c.Extra) > 0 {
+		labels = append(labels, "concurrent-calls")
 		nt = true
 	}
 	p := Programs[sb.Prog].Model
@@ -279,6 +295,9 @@ func checkC03Inner(c C03Case) *ev.Failure {
 		}
 		in = append(in, v)
 	}
+	if len(c.Extra) > 0 {
+		return c03Concurrent(c, sb, mb, cm, in, rec, what, ctxText)
+	}
 	out := cm.Call(in)
 	if buildErr != nil {
 		return ev.Failf("go-representation", "%s: cannot build the return value: %v%s", what, buildErr, ctxText())
@@ -358,6 +377,85 @@ func checkC03Inner(c C03Case) *ev.Failure {
 		ae, ok := callErr.(thrift.TApplicationException)
 		if !ok || ae.TypeId() != 77 {
 			return ev.Failf("application-exception-mapping", "%s: the handler's application exception (type 77) reached the caller as %T %v%s", what, callErr, callErr, ctxText())
+		}
+	}
+	return nil
+}
+
+// c03Concurrent invokes the method once per argument tuple, all at the same time,
+// through the one client and processor; every handler invocation must carry one of
+// the sent tuples (as a multiset) and every caller must get the handler's value.
+func c03Concurrent(c C03Case, sb *ServiceBinding, mb MethodBinding, cm reflect.Value, first []reflect.Value, rec *scriptedRecorder, what string, ctxText func() string) *ev.Failure {
+	m := mb.Method
+	p := Programs[sb.Prog].Model
+	mt := cm.Type()
+	tuples := append([][]*Node{c.Args}, c.Extra...)
+	ins := [][]reflect.Value{first}
+	for _, tuple := range c.Extra {
+		in := []reflect.Value{reflect.ValueOf(frugal.NewFContext("").SetTimeout(20 * time.Second))}
+		for i, a := range m.Args {
+			v, err := FromTree(p, a.Type, mt.In(i+1), tuple[i])
+			if err != nil {
+				return ev.Failf("go-representation", "%s: %v%s", what, err, ctxText())
+			}
+			in = append(in, v)
+		}
+		ins = append(ins, in)
+	}
+	outs := make([][]reflect.Value, len(ins))
+	var wg sync.WaitGroup
+	start := make(chan struct{})
+	for i := range ins {
+		wg.Add(1)
+		go func(i int) {
+			defer wg.Done()
+			<-start
+			outs[i] = cm.Call(ins[i])
+		}(i)
+	}
+	close(start)
+	wg.Wait()
+	canonTuple := func(get func(i int) (*Node, error)) (string, error) {
+		s := ""
+		for i := range m.Args {
+			n, err := get(i)
+			if err != nil {
+				return "", err
+			}
+			s += n.Canon() + "|"
+		}
+		return s, nil
+	}
+	want := map[string]int{}
+	for _, tuple := range tuples {
+		k, _ := canonTuple(func(i int) (*Node, error) { return tuple[i], nil })
+		want[k]++
+	}
+	if rec.count() != len(tuples) {
+		return ev.Failf("handler-count", "%s: %d concurrent calls, handler invoked %d times%s", what, len(tuples), rec.count(), ctxText())
+	}
+	for _, call := range rec.calls {
+		k, err := canonTuple(func(i int) (*Node, error) { return ExpectValue(p, m.Args[i].Type, reflect.ValueOf(call.args[i+1])) })
+		if err != nil {
+			return ev.Failf("go-representation", "%s: %v%s", what, err, ctxText())
+		}
+		if want[k] == 0 {
+			return ev.Failf("argument-mismatch:concurrent", "%s: with %d calls in flight the handler was invoked with an argument tuple nobody sent (arguments of different calls mixed up): %s%s", what, len(tuples), k, ctxText())
+		}
+		want[k]--
+	}
+	for i, out := range outs {
+		if e := out[len(out)-1]; !e.IsNil() {
+			return ev.Failf("unexpected-error", "%s: concurrent call %d failed: %v%s", what, i, e.Interface(), ctxText())
+		}
+		if m.Ret != nil {
+			got, err := ExpectValue(p, m.Ret, out[0])
+			if err != nil {
+				return ev.Failf("go-representation", "%s: %v%s", what, err, ctxText())
+			}
+			if got.Canon() != c.Ret.Canon() {
+				return ev.Failf("return-mismatch", "%s: concurrent call %d got %s, handler returned %s%s", what, i, got.Canon(), c.Ret.Canon(), ctxText())
+			}
 		}
 	}
 	return nil
